@@ -27,6 +27,8 @@ def operand_cases(tier):
         out += [(op, (b, a)) for a, b in list(itertools.combinations(BOUNDARY, 2))[::7]]
         out += [(op, t) for t in list(itertools.combinations(BOUNDARY, 3))[::5]]
         out.append((op, tuple(BOUNDARY[:10])))
+        # repeated operands: the *meaning* clauses apply (text stability is only claimed for duplicate-free operands)
+        out += [(op, (80, 80)), (op, (5, 5, 9)), (op, (10, 10, 20)), (op, (65535, 65535)), (op, (1, 1))]
     if tier == "thorough":
         rnd = random.Random(int(os.environ.get("VERIF_SEED", "0") or 0))
         for _ in range(400):
@@ -59,7 +61,7 @@ def _semantics_and_views(case):
     if dec != ref:
         fails.append(dict(key=f"bounded/Port.sport:{op}", what=f"Port({line!r}).sport={p.sport[:60]!r} does not encode the port set",
                           inputs=dict(line=line)))
-    elif not portsem.is_compact(p.sport, ref):
+    elif len(set(operands)) == len(operands) and not portsem.is_compact(p.sport, ref):
         fails.append(dict(key=f"bounded/Port.sport.compact:{op}", what=f"Port({line!r}).sport={p.sport[:60]!r} is not the compact form",
                           inputs=dict(line=line)))
     # self-assignment through the three views, all histories of length <= 2 (+ one of length 3)
@@ -75,6 +77,9 @@ def _semantics_and_views(case):
             after = (q.line, frozenset(q.ports), q.sport)
         except Exception as ex:
             after = f"{type(ex).__name__}: {ex}"
+        dup = len(set(operands)) != len(operands)
+        if dup and not isinstance(after, str) and after[1] == frozenset(ports0):
+            continue            # repeated operands: meaning kept is all that is claimed
         if after != (text0, frozenset(ports0), sport0):
             obs = after if isinstance(after, str) else after[0]
             cmd = ("import sys; from cisco_acl import Port\n"
